@@ -819,10 +819,12 @@ class GraphSON1Serializer(_BaseGraphSONSerializer):
         (bool, BooleanTypeIO),
         (bytearray, ByteBufferTypeIO),
         (Decimal, BigDecimalTypeIO),
+        # datetime.datetime is a subclass of datetime.date: it must come first, so that the isinstance
+        # fallback gives instances of datetime subclasses the Instant serializer, not the LocalDate one
+        (datetime.datetime, InstantTypeIO),
         (datetime.date, LocalDateTypeIO),
         (datetime.time, LocalTimeTypeIO),
         (datetime.timedelta, DurationTypeIO),
-        (datetime.datetime, InstantTypeIO),
         (uuid.UUID, UUIDTypeIO),
         (Polygon, PolygonTypeIO),
         (Point, PointTypeIO),
